@@ -5,3 +5,8 @@ package io
 // verifEvent is the call-tracing hook of the verification harness in /verif;
 // without the "verif" build tag it does nothing.
 func (c *StringScanner) verifEvent(op string) {}
+
+// verifEnter is the same for a call that may be carried out through other traced calls.
+func (c *StringScanner) verifEnter(op string, n int) func() { return verifNothing }
+
+func verifNothing() {}
